@@ -29,7 +29,10 @@ META = {
     "context} (quick: empty, each single feature, all; thorough: all 256). Sequences: a first include / import with context "
     "inside for / with / macro where a local is live, followed after the scope by a second include / from-import / "
     "direct print that must no longer see that local (with and without a render variable of the same name; main "
-    "template without top-level assignments). The helper prints a render variable, the "
+    "template without top-level assignments). Shadowing: a top-level set that shadows a render argument or an "
+    "environment global, followed by an include / import with context at top level or inside a block (the helper "
+    "must see the assigned value). Extra helper shapes: from-import of h2's macro under an alias after the helper "
+    "defined a public macro of the original name / a public variable of the alias name. The helper prints a render variable, the "
     "includer's local, an environment global, the includer's template global and its own template global; compared: "
     "the whole rendered text / exception class, and for Template.module / make_module(vars) the exposed names "
     "(dir() minus the class's, hasattr over a probe list), str(module) and exported values.",
